@@ -37,6 +37,8 @@ pub struct DriveParams {
     pub lazy: bool,
     /// finished futures are kept and dropped later by a separate environment action
     pub hold: bool,
+    /// percentage of creations during which a call of the wrapped service panics synchronously
+    pub callpanic_pct: u32,
 }
 impl Default for DriveParams {
     fn default() -> Self {
@@ -58,6 +60,7 @@ impl Default for DriveParams {
             reuse_ids: false,
             lazy: false,
             hold: false,
+            callpanic_pct: 0,
         }
     }
 }
@@ -86,6 +89,10 @@ pub trait Adapter {
     }
     /// called when a run ends (drop services)
     fn teardown(&mut self) {}
+    /// if Some, these lines are the run's trace instead of the simulator's own (in-situ layer projections)
+    fn take_lines(&mut self) -> Option<Vec<String>> {
+        None
+    }
 }
 
 pub async fn drive_random(sim: &mut Sim, ad: &mut dyn Adapter, rng: &mut Rng, p: &DriveParams) {
@@ -119,7 +126,11 @@ pub async fn drive_random(sim: &mut Sim, ad: &mut dyn Adapter, rng: &mut Rng, p:
                 let c = next_id;
                 next_id += 1;
                 let req = Req { id: c as u32, key: 1 + rng.below(p.keys as usize) as u32 };
-                sim.create(c, req, &mut |r| ad.mk(r)).await;
+                if p.callpanic_pct > 0 && rng.pct(p.callpanic_pct) {
+                    sim.create_cp(c, req, &mut |r| ad.mk(r)).await;
+                } else {
+                    sim.create(c, req, &mut |r| ad.mk(r)).await;
+                }
             }
             1 => {
                 let c = if rng.pct(p.spurious_pct) && !live.is_empty() { *rng.pick(&live) } else { *rng.pick(&flagged) };
@@ -176,7 +187,11 @@ pub async fn drive_schedule(sim: &mut Sim, ad: &mut dyn Adapter, evs: &[Value], 
                     continue;
                 }
                 let req = Req { id: c as u32, key: geti(ev, "key").unwrap_or(1) as u32 };
-                sim.create(c, req, &mut |r| ad.mk(r)).await;
+                if geti(ev, "cp") == Some(1) {
+                    sim.create_cp(c, req, &mut |r| ad.mk(r)).await;
+                } else {
+                    sim.create(c, req, &mut |r| ad.mk(r)).await;
+                }
             }
             "poll" => {
                 let c = geti(ev, "c").unwrap_or(0) as usize;
@@ -305,9 +320,13 @@ pub struct RunStats {
 
 /// random mode: `runs` runs with seeded configurations and environments
 pub async fn run_random(ad: &mut dyn Adapter, seed: u64, runs: usize, size: Size, out: &mut Vec<String>) -> RunStats {
+    run_random_from(ad, seed, 0, runs, size, out).await
+}
+/// runs first .. first+runs of the seeded sequence (a run depends on (seed, run number, size) only)
+pub async fn run_random_from(ad: &mut dyn Adapter, seed: u64, first: usize, runs: usize, size: Size, out: &mut Vec<String>) -> RunStats {
     let mut sim = Sim::new();
     let mut st = RunStats { runs: 0, events: 0, skipped: 0 };
-    for run in 0..runs {
+    for run in first..first + runs {
         let mut rng = Rng::new(seed.wrapping_mul(1_000_003).wrapping_add(run as u64));
         let cfg = ad.gen_cfg(&mut rng, size);
         sim.reset(ad.name(), &cfg, seed, run);
@@ -323,10 +342,12 @@ pub async fn run_random(ad: &mut dyn Adapter, seed: u64, runs: usize, size: Size
             st.skipped += drive_schedule(&mut sim, ad, &fin, &mut rng).await;
         }
         sim.obs = None;
+        sim.tap = None;
         sim.callers.clear();
         ad.teardown();
         st.runs += 1;
-        out.extend(sim.take_lines());
+        let own = sim.take_lines();
+        out.extend(ad.take_lines().unwrap_or(own));
     }
     st.events = sim.n_events;
     st
@@ -364,10 +385,12 @@ pub async fn run_replay(ad: &mut dyn Adapter, input: &str, with_finale: bool, ou
             st.skipped += drive_schedule(&mut sim, ad, &fin, &mut rng).await;
         }
         sim.obs = None;
+        sim.tap = None;
         sim.callers.clear();
         ad.teardown();
         st.runs += 1;
-        out.extend(sim.take_lines());
+        let own = sim.take_lines();
+        out.extend(ad.take_lines().unwrap_or(own));
     }
     st.events = sim.n_events;
     st
